@@ -1,7 +1,14 @@
 #!/bin/bash
-# Offline set-up: make sure hypothesis is importable by /venv/bin/python.
+# Offline set-up: make sure hypothesis (and, for the optional coverage-guided engine of C02, atheris) are importable by
+# /venv/bin/python; anything missing is installed from the offline wheelhouse into /verif/.deps (never into /venv).
 here="$(cd "$(dirname "$0")" && pwd)"
 if ! PYTHONPATH="$here/.deps" /venv/bin/python -c "import hypothesis, numpy" 2>/dev/null; then
   /venv/bin/pip install --no-index --find-links /opt/veriftools/wheels --target "$here/.deps" hypothesis || exit 1
 fi
+if ! PYTHONPATH="$here/.deps" /venv/bin/python -c "import atheris" 2>/dev/null; then
+  /venv/bin/pip install --no-index --find-links /opt/veriftools/wheels --target "$here/.deps" --no-deps atheris \
+    || echo "atheris not installable: the coverage-guided engine of C02 will be skipped (recorded in the evidence)"
+fi
 PYTHONPATH="$here/.deps" /venv/bin/python -c "import hypothesis, numpy; print('hypothesis', hypothesis.__version__, 'numpy', numpy.__version__)"
+PYTHONPATH="$here/.deps" /venv/bin/python -c "import atheris; print('atheris ok')" 2>/dev/null || echo "atheris unavailable"
+exit 0
